@@ -148,6 +148,15 @@ def _all_tensors(
                 yield tensor
     if not include_attributes:
         return
+    # Look at the default values of function attributes
+    if isinstance(graph, _core.Function):
+        for attr in graph.attributes.values():
+            if attr.is_ref() or attr.value is None:
+                continue
+            if attr.type == _enums.AttributeType.TENSOR:
+                yield attr.value
+            elif attr.type == _enums.AttributeType.TENSORS:
+                yield from attr.value
     # Look at constant attributes in nodes
     for node in _traversal.RecursiveGraphIterator(graph):
         for attr in node.attributes.values():
